@@ -290,7 +290,7 @@ def check(case):
             except Exception:
                 pass
             if not _cls['v']:
-                # classification only (finding F-C06b): at a junction sharper than 50 degrees the pulses of one wire
+                # classification only (finding F-C06c): at a junction sharper than 50 degrees the pulses of one wire
                 # lie within 1.1 segment lengths of the other wire's segments, where the inherited criterion
                 # t <= 1.1 applies the exact (self-term) kernel to wires thicker than 1e-4 wavelength - although
                 # the observation point is not on that segment; which halves this hits depends on the direction
